@@ -38,10 +38,10 @@ func runC09(c *Ctx) {
 
 	// identity write sites: direct Header.Set/Add, or a module helper that receives the header
 	type site struct {
-		i    ssa.Instruction
-		ok   bool
-		why  string
-		val  ssa.Value
+		i   ssa.Instruction
+		ok  bool
+		why string
+		val ssa.Value
 	}
 	var sites []site
 	classifyIn := func(fn *ssa.Function, hdrIs func(ssa.Value) bool, valOf func(ssa.Value) ssa.Value, at ssa.Instruction) {
